@@ -155,6 +155,18 @@ def _normalize_run_space(value: Any) -> Any:
 
 
 def _compute_run_space_spec_id(run_space: Mapping[str, Any]) -> str:
+    # Hash the same representation the runtime hashes (the parsed RunSpaceV1Config
+    # with its defaults filled in), so `inspect` and the trace report one spec id.
+    try:
+        from dataclasses import asdict
+
+        from semantiva.configurations.load_pipeline_from_yaml import (
+            _parse_run_space_block,
+        )
+
+        run_space = asdict(_parse_run_space_block(run_space))
+    except Exception:
+        pass
     normalized = _normalize_run_space(run_space)
     payload = json.dumps(normalized, separators=(",", ":"), ensure_ascii=False).encode(
         "utf-8"
